@@ -779,7 +779,75 @@ func (c *Ctx) c05FsCase(dir string, k int) {
 	c.Emit("c05.holds.fs_materials", want+" "+got, "true")
 }
 
+// large scenes / texts with tagged (index-dependent, non-zero) values: thousands of v lines and faces per group,
+// sizes around 4096 and (thorough) 65536
+func (c *Ctx) c05BigCase(nv, nt int, attr int, ranges int, span int, resave bool) {
+	c.Note(fmt.Sprintf("big.nv=%d.nt=%d", nv, nt))
+	mk := func(name string, off float64) c05Mesh {
+		m := c05Mesh{name: name, idx: make([]int, 3*nt), pos: make([]vector3.Float64, nv)}
+		for i := 0; i < nt; i++ {
+			m.idx[3*i], m.idx[3*i+1], m.idx[3*i+2] = i%span, (i*7+1)%span, (i*13+2)%span
+		}
+		for v := range m.pos {
+			m.pos[v] = vector3.New(float64(v+1)+off, float64(v+1)*0.5, -float64(v+1)-0.25)
+		}
+		if attr&1 != 0 {
+			m.uv = make([]vector2.Float64, nv)
+			for v := range m.uv {
+				m.uv[v] = vector2.New(float64(v+1)*0.25, float64(v%17)+off+1)
+			}
+		}
+		if attr&2 != 0 {
+			m.nrm = make([]vector3.Float64, nv)
+			for v := range m.nrm {
+				m.nrm[v] = vector3.New(float64(v%7+1), float64(v%5)-2.5, float64(v+1))
+			}
+		}
+		if ranges > 0 {
+			left := nt
+			for r := 0; r < ranges; r++ {
+				cnt := left / (ranges - r)
+				nm := fmt.Sprintf("mat_%d", r%3)
+				m.mats = append(m.mats, c05Mat{name: &nm, count: cnt})
+				left -= cnt
+			}
+		}
+		return m
+	}
+	small := c05Mesh{name: "first", idx: []int{0, 1, 2}, pos: []vector3.Float64{vector3.New(9., 9., 9.), vector3.New(8., 8., 8.), vector3.New(7., 7., 7.)}}
+	if ranges > 0 {
+		nm := "mat_0"
+		small.mats = []c05Mat{{name: &nm, count: 1}}
+	}
+	ms := []c05Mesh{small, mk("big", 0), mk("big2", 0.5)}
+	scene := c05SceneTok("", ms)
+	wans, text := c05Write("", ms)
+	c.Emit("c05.write", scene, wans)
+	if text == nil {
+		return
+	}
+	rans, gs := c05Read(text)
+	c.Emit("c05.read", hx(text), rans)
+	if gs == nil {
+		return
+	}
+	c.Emit("c05.holds.roundtrip", scene+" "+strings.TrimPrefix(rans, "ok "), "true")
+	if !resave {
+		return // the oracle's list-based pools make it quadratic on very long v sections
+	}
+	if sans, text2 := c05Resave(gs); text2 != nil {
+		c.Emit("c05.holds.resave", hx(text)+" "+sans, "true")
+	}
+}
+
 func runC05(c *Ctx) {
+	c.c05BigCase(1500, 5000, 3, 3, 1500, true) // quick and thorough: ~5000 faces per group, > 4096 v lines in the file
+	if c.Tier == "thorough" {
+		c.c05BigCase(4097, 4096, 0, 0, 4097, true)
+		c.c05BigCase(4096, 4097, 1, 2, 4096, true)
+		c.c05BigCase(5000, 8192, 2, 5, 5000, true)
+		c.c05BigCase(70000, 66000, 3, 4, 2000, false) // > 65536 v lines per mesh and > 65536 faces per group
+	}
 	if dir, err := os.MkdirTemp("", "verif-c05-"); err == nil {
 		nfs := c.N / 3
 		if nfs > 600 {
